@@ -11,6 +11,7 @@ mutual
 def obsEqB : Val → Val → Bool
   | .arr _ xs, .arr _ ys => obsEqListB xs ys
   | .map xs, .map ys => obsEqKvsB xs ys
+  | .tmap z n xs, .tmap z' n' ys => Val.deepEq z z' && n == n' && obsEqKvsB xs ys
   | .f64 a, .f64 b => a == b || (a.isNaN && b.isNaN)
   | .f32 a, .f32 b => a == b || (a.isNaN && b.isNaN)
   | a, b => Val.deepEq a b
